@@ -141,14 +141,25 @@ def run(tier: str, seed: int) -> int:
         model_sigs = []
         kfiles = {}
         pool = cf.ThreadPoolExecutor(max_workers=20)
-        for g, (sigs, k1) in zip(groups, pool.map(lambda g: diagnose(work, g['name'], work.path(g['name'] + '.json'), cov),
-                                                  groups)):
+        real_groups = [g for g in groups if not g.get('stub')]
+        for g in groups:
+            if g.get('stub'):       # the code could not be measured on these files: nothing to model, the scenarios report it
+                K = json.loads(work.path(g['name'] + '.json').read_text())
+                K['excusedLumps'], K['excusedViews'] = [], []
+                kfiles[g['name']] = work.path(g['name'] + '_mc.json')
+                kfiles[g['name']].write_text(json.dumps(K))
+        if not real_groups:
+            real_groups, ref = [], None
+        elif groups[0].get('stub'):
+            ref = real_groups[0]['name']
+        for g, (sigs, k1) in zip(real_groups, pool.map(lambda g: diagnose(work, g['name'], work.path(g['name'] + '.json'), cov),
+                                                       real_groups)):
             model_sigs += sigs
             kfiles[g['name']] = k1
         mark('diagnose')
         # 3. concurrently: model checking, the transition graph of the user phase -> replay on the files
         mc_jobs = []
-        for g in groups:
+        for g in real_groups:
             if g['name'] == ref:
                 cfgs = ['BspLazy_mc.cfg'] if tier != 'thorough' else ['BspLazy_mc.cfg', 'BspLazy_all.cfg', 'BspLazy_full.cfg']
             else:
@@ -156,6 +167,8 @@ def run(tier: str, seed: int) -> int:
             for cfg in cfgs:
                 mc_jobs.append((cfg, g['name'], pool.submit(run_tlc, 'BspLazy', cfg, env={'BSPLAZY_CONST': kfiles[g['name']]},
                                                             workers=8, timeout=2400)))
+        if ref is None:     # not a single file could be measured: the static relations give the access sequences
+            ref = groups[0]['name']
         r = run_tlc('BspLazy', 'BspLazy_edges.cfg', workers=1, env={'BSPLAZY_CONST': kfiles[ref]}, timeout=900)
         core.require_mc(r, 'BspLazy_edges.cfg')
         edges = [p for p in r.prints if isinstance(p, dict) and p.get('tag') == 'EDGE']
@@ -166,7 +179,7 @@ def run(tier: str, seed: int) -> int:
         cov['states'] += r.distinct
         cov['transitions'] += r.generated
         accessed = {e['a']['v'] for e in edges}
-        if len(accessed) != 21:
+        if len(accessed) != 21 and not groups[0].get('stub'):
             raise core.MachineryError(f'vacuous model: views never accessed: {accessed}')
         ef = work.path('edges.json')
         ef.write_text(json.dumps(edges))
@@ -180,9 +193,12 @@ def run(tier: str, seed: int) -> int:
             return json.loads(out.strip().splitlines()[-1])
         scen = 0
         seen_files = set()
+        slow = []
         for stt in pool.map(one, range(njobs)):
             scen += stt['scenarios']
             seen_files.add(stt['file'])
+            slow.append((stt['wall_s'], stt['file'], stt['part'], stt['scenarios']))
+        cov['slowest_jobs'] = sorted(slow, reverse=True)[:4]
         if len(seen_files) != st['files']:
             raise core.MachineryError(f'files without scenarios: {st["files"] - len(seen_files)}')
         cov['scenarios'] = scen
@@ -225,6 +241,13 @@ def run(tier: str, seed: int) -> int:
         mark('validate')
         for cfg, gname, fut in mc_jobs:
             r = fut.result()
+            if not r.ok and r.violated:
+                # the design conditions fail on the measured relations in a way the diagnosis did not already
+                # report and excuse: a violation, with TLC's counterexample in the evidence
+                for name in sorted(set(r.violated)):
+                    model_sigs.append({'kind': 'model', 'action': 'save', 'clause': 'model.mc', 'item': name or 'property',
+                                       'field': cfg, 'group': gname, 'trace': r.raw[-6000:]})
+                continue
             core.require_mc(r, f'{cfg}[{gname}]')
             cov['models'][f'{cfg}[{gname}]'] = {'generated': r.generated, 'distinct': r.distinct, 'depth': r.depth}
             cov['states'] += r.distinct
